@@ -20,6 +20,8 @@ NOJSON = object()
 UNIVERSE = [
     ('0', 0, 'int'), ('1', 1, 'int'), ('-1', -1, 'int'), ('2', 2, 'int'), ('10', 10, 'int'),
     ('9223372036854775807', 9223372036854775807, 'int'), ('-9223372036854775807', -9223372036854775807, 'int'),
+    # neighbours that are one double: integers are ordered as integers, not through f64
+    ('9223372036854775806', 9223372036854775806, 'int'), ('9007199254740993', 9007199254740993, 'int'), ('9007199254740992', 9007199254740992, 'int'),
     ('0.0', 0.0, 'float'), ('1.5', 1.5, 'float'), ('2.5', 2.5, 'float'), ('10.0', 10.0, 'float'),
     ('1e+308', 1e308, 'float'), ('5e-324', 5e-324, 'float'), ('0.1', 0.1, 'float'),
     ('""', '', 'str'), ('"a"', 'a', 'str'), ('"ab"', 'ab', 'str'), ('"b"', 'b', 'str'), ('"abc"', 'abc', 'str'),
@@ -38,7 +40,7 @@ UNIVERSE = [
 ]
 QUICK = ['0', '1', '-1', '2', '1.5', '2.5', '0.0', '""', '"a"', '"ab"', '"b"', 'true', 'null', '[]', '[1]', '[1, 2]',
          '[2, 1]', '{}', '{a: 1}', '{a: 1, b: 2}', '{b: 2, a: 1}', '/^ab/', 'r[1,2)', 'r(1,2]', 'r[0.5,2.5]',
-         'r(1,1)', 'r[1,1)', 'r[1,1]', 'r(2.5,2.5)']
+         'r(1,1)', 'r[1,1)', 'r[1,1]', 'r(2.5,2.5)', '9007199254740993', '9007199254740992']
 # lhs-only document values that cannot be written as Guard literals
 EXTRA_DOCS = [(-2.5, 'float'), (-9223372036854775808, 'int'), (-0.0, 'float')]
 
